@@ -846,20 +846,68 @@ Proof.
     destruct (enum_value en i); [now rewrite str_eqb_refl in Hn|reflexivity].
 Qed.
 
+(* ---------- abstract bases (never the class of a scheme column, but classes of the table) ---------- *)
+Lemma eb_mccr O en sq sup t : eval_build O en sq ("MafCustomColumnRecord" :: sup) t = Ok VNone.
+Proof. reflexivity. Qed.
+
+(* MafCustomColumnRecord itself: __build__ is the abstract stub returning None, which prints "None" *)
+Definition k_base (e : ecls) : bool :=
+  hd_is (e_build e) "MafCustomColumnRecord" && mcr_str e && is_none (e_null e).
+Lemma base_raw O r P : k_base (r_self r) = true -> raw_fix O r P.
+Proof.
+  intros H t v Hb _ _ _ _. unfold k_base, mcr_str in H. split_andb H.
+  apply hd_is_eq in H as [sup H]. apply hd_is_eq in H1 as [sup' H1]. apply is_none_eq in H0.
+  unfold cls_build_raw in *. rewrite H in *. rewrite eb_mccr in Hb. injection Hb as <-.
+  exists (s2l "None"). rewrite H1, esi_mcr. split; [reflexivity|]. intros _.
+  split; [intros d Hd; congruence|apply eb_mccr].
+Qed.
+
+(* EnumColumn without an enumeration (abstract __enum_class__): building always raises *)
+Definition k_enum_abstract (e : ecls) : bool := enum_chain (e_build e) && is_none (e_enum e).
+Lemma enum_chain_none O sq ch : enum_chain ch = true -> forall t, exists x, eval_build O None sq ch t = Raise x.
+Proof.
+  induction ch as [|c sup IH]; intros H t; [discriminate|]. cbn [enum_chain] in H.
+  destruct (String.eqb c "EnumColumn") eqn:E.
+  - apply String.eqb_eq in E. subst c. rewrite eb_enum. eauto.
+  - destruct (cap_cls c || String.eqb c "YesNoOrUnknown") eqn:E2; [|discriminate].
+    destruct (enum_chain_step None c sup t E E2) as [t2 Ht2]. rewrite (Ht2 O sq). now apply IH.
+Qed.
+Lemma enum_abstract_raw O r P : k_enum_abstract (r_self r) = true -> raw_fix O r P.
+Proof.
+  intros H t v Hb. exfalso. unfold k_enum_abstract in H. split_andb H. apply is_none_eq in H0.
+  unfold cls_build_raw in Hb. rewrite H0 in Hb.
+  destruct (enum_chain_none O (fun t0 => match r_elem r with
+                                       | None => Raise TypeError
+                                       | Some el => match map_res (eval_build O (e_enum el) no_seq (e_build el)) (split SEMI t0) with
+                                                    | Ok vs => Ok (VList vs) | Raise x => Raise x end end)
+              _ H t) as [x Hx].
+  rewrite Hx in Hb. discriminate.
+Qed.
+
+(* SequenceOfValuesColumn without an element class (abstract __column_class__): building always raises *)
+Definition k_seq_abstract (r : rcls) : bool :=
+  hd_is (e_build (r_self r)) "SequenceOfValuesColumn" && is_none (r_elem r).
+Lemma seq_abstract_raw O r P : k_seq_abstract r = true -> raw_fix O r P.
+Proof.
+  intros H t v Hb. exfalso. unfold k_seq_abstract in H. split_andb H.
+  apply hd_is_eq in H as [sup H]. apply is_none_eq in H0.
+  unfold cls_build_raw in Hb. rewrite H, H0, eb_seq in Hb. discriminate.
+Qed.
+
 (* ---------- the classifiers and the field-level theorems ---------- *)
 Definition nonseq_ok (e : ecls) : bool :=
   k_rnv e || k_str e || k_int e || k_entrez e || k_float e || k_uuid e || k_enum e
-  || k_canon e || k_bool e || k_strorint e || k_strintfloat e.
+  || k_canon e || k_bool e || k_strorint e || k_strintfloat e || k_base e || k_enum_abstract e.
 
 Definition plain_ok (e : ecls) : bool :=
   negb (e_custom e) && is_none (e_null e) && hd_is (e_string_it e) "MafColumnRecord".
 
 (* classes for which the fixpoint holds for every accepted value *)
 Definition class_strict_ok (r : rcls) : bool :=
-  plain_ok (r_self r) || (e_custom (r_self r) && e_null_ok (r_self r) && (nonseq_ok (r_self r) || k_seq_strict r)).
+  plain_ok (r_self r) || (e_custom (r_self r) && e_null_ok (r_self r) && (nonseq_ok (r_self r) || (k_seq_strict r || k_seq_abstract r))).
 (* ... and for every accepted value except one-element lists rendering '' *)
 Definition class_ok (r : rcls) : bool :=
-  plain_ok (r_self r) || (e_custom (r_self r) && e_null_ok (r_self r) && (nonseq_ok (r_self r) || k_seq r)).
+  plain_ok (r_self r) || (e_custom (r_self r) && e_null_ok (r_self r) && (nonseq_ok (r_self r) || (k_seq r || k_seq_abstract r))).
 
 Lemma nonseq_raw O (HO : oracle_laws O) r P : nonseq_ok (r_self r) = true -> raw_fix O r P.
 Proof.
@@ -876,6 +924,8 @@ Proof.
   - now apply bool_raw.
   - now apply strorint_raw.
   - now apply strintfloat_raw.
+  - now apply base_raw.
+  - now apply enum_abstract_raw.
 Qed.
 
 Theorem field_fixpoint O (HO : oracle_laws O) r t v :
@@ -885,9 +935,8 @@ Proof.
   - unfold plain_ok in H. split_andb H. apply negb_true_iff in H. apply is_none_eq in H1.
     now apply (plain_fix O r H H1 H0 t v).
   - split_andb H. refine (custom_fix O r (fun v => single_empty v = false) H H1 _ t v Hval Hse).
-    apply orb_true_iff in H0 as [H0|H0].
-    + now apply nonseq_raw.
-    + now apply seq_raw.
+    apply orb_true_iff in H0 as [H0|H0]; [now apply nonseq_raw|].
+    apply orb_true_iff in H0 as [H0|H0]; [now apply seq_raw|now apply seq_abstract_raw].
 Qed.
 
 Theorem field_fixpoint_strict O (HO : oracle_laws O) r t v :
@@ -897,9 +946,8 @@ Proof.
   - unfold plain_ok in H. split_andb H. apply negb_true_iff in H. apply is_none_eq in H1.
     now apply (plain_fix O r H H1 H0 t v).
   - split_andb H. refine (custom_fix O r (fun _ => True) H H1 _ t v Hval I).
-    apply orb_true_iff in H0 as [H0|H0].
-    + now apply nonseq_raw.
-    + now apply seq_strict_raw.
+    apply orb_true_iff in H0 as [H0|H0]; [now apply nonseq_raw|].
+    apply orb_true_iff in H0 as [H0|H0]; [now apply seq_strict_raw|now apply seq_abstract_raw].
 Qed.
 
 Lemma class_strict_ok_ok r : class_strict_ok r = true -> class_ok r = true.
@@ -907,7 +955,9 @@ Proof.
   unfold class_strict_ok, class_ok. intros H. apply orb_true_iff in H as [H|H]; [now rewrite H|].
   apply orb_true_iff. right. split_andb H. rewrite H, H1. simpl.
   apply orb_true_iff in H0 as [H0|H0]; [now rewrite H0|].
-  unfold k_seq_strict in H0. apply andb_true_iff in H0 as [H0 _]. rewrite H0. apply orb_true_r.
+  apply orb_true_iff in H0 as [H0|H0].
+  - unfold k_seq_strict in H0. apply andb_true_iff in H0 as [H0 _]. rewrite H0. apply orb_true_r.
+  - rewrite H0. now rewrite !orb_true_r.
 Qed.
 
 (* the fixpoint clause spelled out: whatever the rendering parses to renders to the same text *)
